@@ -155,6 +155,50 @@ pub fn unop(op: UnOp, a: i64) -> i64 {
     }
 }
 
+/// Evaluate an expression without random/signExt over a plain valuation
+pub fn eval_pure(e: &Expr, lookup: &dyn Fn(&str) -> Option<i64>) -> Result<i64, RefErr> {
+    Ok(match e {
+        Expr::Lit(n, _) => *n,
+        Expr::Name(n) => lookup(n).ok_or_else(|| RefErr::Unassigned(n.clone()))?,
+        Expr::Un(op, a) => unop(*op, eval_pure(a, lookup)?),
+        Expr::Bin(op, a, b) => {
+            let x = eval_pure(a, lookup)?;
+            let y = eval_pure(b, lookup)?;
+            binop(*op, x, y)?
+        }
+        Expr::Ite(c, a, b) => {
+            if eval_pure(c, lookup)? != 0 {
+                eval_pure(a, lookup)?
+            } else {
+                eval_pure(b, lookup)?
+            }
+        }
+        Expr::Group(a) | Expr::Raw(_, a) => eval_pure(a, lookup)?,
+        Expr::Random(_) | Expr::SignExt(..) => return Err(RefErr::NotImplemented),
+    })
+}
+
+/// Build the tree of a flat chain `o0 op0 o1 op1 o2 ...` by the reference precedence:
+/// levels from tightest to loosest, left-associative within a level.
+pub fn climb(mut operands: Vec<Expr>, mut ops: Vec<BinOp>) -> Expr {
+    assert_eq!(operands.len(), ops.len() + 1);
+    for level in 1..=8 {
+        let mut i = 0;
+        while i < ops.len() {
+            if ops[i].level() == level {
+                let r = operands.remove(i + 1);
+                let l = operands.remove(i);
+                operands.insert(i, bin(ops[i], l, r));
+                ops.remove(i);
+            } else {
+                i += 1;
+            }
+        }
+    }
+    assert!(ops.is_empty());
+    operands.pop().unwrap()
+}
+
 // ---------------------------------------------------------------------------
 // Binding of header columns to signals
 
@@ -214,7 +258,7 @@ pub fn static_reads(p: &Program) -> Vec<String> {
                     out.push(n.clone());
                 }
             }
-            Expr::Un(_, a) | Expr::Random(a) | Expr::Group(a) => expr(a, scope, visible, out),
+            Expr::Un(_, a) | Expr::Random(a) | Expr::Group(a) | Expr::Raw(_, a) => expr(a, scope, visible, out),
             Expr::Bin(_, a, b) | Expr::SignExt(a, b) => {
                 expr(a, scope, visible, out);
                 expr(b, scope, visible, out);
@@ -466,7 +510,7 @@ impl<'a> Interp<'a> {
                 let _ = (a, b);
                 return Err(Some(RefErr::NotImplemented));
             }
-            Expr::Group(a) => self.eval(a, vars)?,
+            Expr::Group(a) | Expr::Raw(_, a) => self.eval(a, vars)?,
         })
     }
 
